@@ -867,6 +867,13 @@ class BaseInterpreter(Generic[TContext, TEvent]):
                 f"{type(snapshot).__name__}."
             )
 
+        # 🧯 Validate the shape before touching any field. A snapshot that is
+        #    valid JSON but not a snapshot (`{}`, a missing key, a field of the
+        #    wrong type) used to escape as a raw KeyError / TypeError /
+        #    AttributeError from the lines below - corruption is an ordinary
+        #    runtime condition here, and `except XStateMachineError` missed it.
+        cls._validate_snapshot_shape(snapshot)
+
         # 🧪 Create a new instance of the correct interpreter class (sync/async)
         interpreter = cls(machine)
         interpreter.context = snapshot["context"]
@@ -956,6 +963,54 @@ class BaseInterpreter(Generic[TContext, TEvent]):
             interpreter.status,
         )
         return interpreter
+
+    @staticmethod
+    def _validate_snapshot_shape(snapshot: Dict[str, Any]) -> None:
+        """Rejects a decoded snapshot whose fields have the wrong shape.
+
+        Args:
+            snapshot (Dict[str, Any]): The decoded snapshot object.
+
+        Raises:
+            InvalidConfigError: If a required key is missing or a field has
+                a type `from_snapshot` cannot interpret.
+        """
+        for key in ("status", "context"):
+            if key not in snapshot:
+                raise InvalidConfigError(
+                    f"Snapshot is missing the required '{key}' key."
+                )
+        if not isinstance(snapshot["status"], str):
+            raise InvalidConfigError("Snapshot 'status' must be a string.")
+        ids = snapshot.get("configuration") or snapshot.get("state_ids")
+        if not isinstance(ids, list) or not all(
+            isinstance(item, str) for item in ids
+        ):
+            raise InvalidConfigError(
+                "Snapshot must list its active states under 'configuration' "
+                "(or 'state_ids') as a list of state id strings."
+            )
+        history = snapshot.get("history") or {}
+        if not isinstance(history, dict) or not all(
+            isinstance(ids_, list) and all(isinstance(i, str) for i in ids_)
+            for ids_ in history.values()
+        ):
+            raise InvalidConfigError(
+                "Snapshot 'history' must map state ids to lists of state ids."
+            )
+        actors = snapshot.get("actors") or {}
+        if not isinstance(actors, dict) or not all(
+            isinstance(record, dict)
+            and isinstance(record.get("snapshot"), dict)
+            for record in actors.values()
+        ):
+            raise InvalidConfigError(
+                "Snapshot 'actors' must map actor ids to persisted records."
+            )
+        if not isinstance(snapshot.get("system") or {}, dict):
+            raise InvalidConfigError(
+                "Snapshot 'system' must map system ids to actor ids."
+            )
 
     # -------------------------------------------------------------------------
     # 📝 Abstract Methods (Template Method Hooks for Subclasses)
